@@ -86,6 +86,13 @@ class EffectModel:
             return NotImplemented
         if isinstance(fn, types.FunctionType) and interpretable(fn) and fn not in self.externals:
             return NotImplemented  # inlined by the interpreter
+        w = getattr(fn, "__wrapped__", None)
+        if isinstance(w, types.FunctionType) and interpretable(w):
+            # a decorated repository function (e.g. a contextmanager used outside a with statement): treating the wrapper
+            # as an opaque external would hide the repository code's effects from the model
+            from .values import Unsupported
+
+            raise Unsupported(f"decorated repository function {getattr(w, '__qualname__', w)} called outside a modelled construct")
         if not (is_symbolic(args) or is_symbolic(kwargs)) and fn not in self.externals:
             nm = getattr(fn, "__name__", "")
             if nm in self.total_funcs or getattr(fn, "__module__", "") in ("builtins", "operator"):
